@@ -8,6 +8,7 @@
 //
 //	conc <seed> <goroutines> <ops>   goroutines use one real AdaptedClientPool concurrently (see execConc)
 //	slowrr / slowres …               removal while a slow reflection resolution is in flight (see slow.go)
+//	addrm …                          Add(name) ‖ Remove(name) on a real router while the poller is busy (see addrm.go)
 //	cstream / connrace / newrace …   AdaptedClientConn.Stream timing and context, Close racing Stream, New racing New (see conn.go)
 //
 // cfg = p<0|1>r<0|1>: p1 = reflection polling enabled (1s interval), p0 = WithDisabledReflectionPolling;
@@ -679,6 +680,9 @@ func execLine(input string) string {
 	if len(f) > 0 && f[0] == "conc" {
 		return execConc(f)
 	}
+	if len(f) > 0 && f[0] == "addrm" {
+		return execAddRm(f)
+	}
 	if len(f) > 0 && f[0] == "cstream" {
 		return execCStream(f)
 	}
@@ -859,8 +863,8 @@ func (Area) Gen(r *rand.Rand, tier string, emit func(string)) {
 	// 1c. AdaptedClientConn in detail (conn.go): Stream against controlled connectivity with the halved wait, the
 	// deadline the target is told, Close racing Stream; and pool.New racing itself.
 	for _, l := range []string{
-		"cstream 1200 ready 1", "cstream 1200 ready 0", "cstream 1200 hold1 1", "cstream 1200 hold3 0",
-		"cstream 1200 refuse 0", "cstream 1200 hang 1", "cstream 0 hold1 0", "cstream 0 ready 1",
+		"cstream 1600 ready 1", "cstream 1600 ready 0", "cstream 1600 hold1 1", "cstream 1600 hold3 0",
+		"cstream 1600 refuse 0", "cstream 1600 hang 1", "cstream 0 hold1 0", "cstream 0 ready 1",
 	} {
 		emit(l)
 	}
@@ -869,7 +873,7 @@ func (Area) Gen(r *rand.Rand, tier string, emit func(string)) {
 		nrace = 300
 		for _, l := range []string{
 			"cstream 2000 hold1 0", "cstream 2000 hold3 1", "cstream 2000 refuse 1", "cstream 2000 hang 0",
-			"cstream 800 hold3 1", "cstream 800 refuse 0", "cstream 1600 hold2 1", "cstream 0 hold2 1",
+			"cstream 1200 hold3 1", "cstream 1200 refuse 0", "cstream 2400 hold2 1", "cstream 0 hold2 1",
 		} {
 			emit(l)
 		}
@@ -877,6 +881,15 @@ func (Area) Gen(r *rand.Rand, tier string, emit func(string)) {
 	for k := 0; k < nrace; k++ {
 		emit(fmt.Sprintf("connrace %d %d", r.Intn(1_000_000), 2+r.Intn(10)))
 		emit(fmt.Sprintf("newrace %d %d", r.Intn(1_000_000), 2+r.Intn(7)))
+	}
+
+	// 1d. Add(name) ‖ Remove(name) on a real router while the name's poller is busy (addrm.go)
+	nar := 6
+	if tier == "thorough" {
+		nar = 40
+	}
+	for k := 0; k < nar; k++ {
+		emit(fmt.Sprintf("addrm %d %d %d %d", r.Intn(1_000_000), 6+r.Intn(6), 15+r.Intn(30), k%2))
 	}
 
 	// Router level: the request timeout is the fixed 10 s default, one case costs 11–13 s.
